@@ -3,7 +3,7 @@ import TantivyModel.Proofs.FieldNorm
 import TantivyModel.Proofs.Invert
 import TantivyModel.Proofs.PostingsRoundtrip
 import TantivyModel.Proofs.BlockSearch
-import TantivyModel.Proofs.Cursor
+import TantivyModel.Proofs.CursorSeek
 import TantivyModel.Proofs.Positions
 /-!
 # C07 — The inverted index records exactly the terms, documents, frequencies, positions
@@ -75,11 +75,11 @@ theorem C07_postings_roundtrip (c : Cfg) (o : RecOpt) (hB : 0 < c.B) (hS : 2 ≤
 theorem C07_postings_roundtrip_extracted (P : BitPacker) (hP : GoodPacker cfg.B P) (o : RecOpt)
     (docs tfs : List Nat) (hs : docs.Pairwise (· < ·)) (ht : ∀ d ∈ docs, d < Gen.Postings.TERMINATED)
     (hl : tfs.length = docs.length) (hp : ∀ t ∈ tfs, 1 ≤ t) :
-    decodeAll { cfg with P := P } o docs.length (encodeTerm { cfg with P := P } o docs tfs) =
+    decodeAll (cfgWith P) o docs.length (encodeTerm (cfgWith P) o docs tfs) =
       some (docs, if hasFreq o then tfs else []) := by
   apply C07_postings_roundtrip
-  · decide
-  · decide
+  · show 0 < cfg.B; decide
+  · show 2 ≤ cfg.S; decide
   · exact hP
   · exact ⟨hs, fun d hd => Nat.lt_trans (ht d hd) (by decide), hl, hp⟩
 
@@ -105,11 +105,19 @@ theorem C07_block_search_extracted (arr : List Nat) (target : Nat)
 (skip-reader seek + in-block search) observes — doc, term frequency and the offset of the
 document's positions — exactly what the sorted-list specification yields. -/
 theorem C07_seek_equiv (o : RecOpt) (docs tfs : List Nat) (hv : ValidList docs tfs)
-    (hT : ∀ d ∈ docs, d < cfg.T) (hsum : BlockSumsFit cfg docs.length tfs)
+    (hT : ∀ d ∈ docs, d < cfg.T) (hsum : BlockSumsFit cfg tfs)
     (ops : List Op) (hops : ∀ t, Op.seek t ∈ ops → t ≤ cfg.T) :
-    run cfg (Cursor.init (chunkBlocks cfg o (docs.length / cfg.B) docs tfs)) ops =
-      specRun cfg.T docs (obsTfs o tfs) ⟨0⟩ ops :=
+    run cfg o (Cursor.init (chunkBlocks cfg o (docs.length / cfg.B) docs tfs)) ops =
+      specRun cfg.T o docs (obsTfs o tfs) ⟨0⟩ ops :=
   run_eq_specRun o docs tfs hv hT hsum ops hops
+
+/-- bytes → cursor → program, end to end: reading the *encoded bytes* of a posting list through
+any program observes the sorted-list specification (any bit packer meeting the contract) -/
+theorem C07_seek_equiv_bytes (P : BitPacker) (hP : GoodPacker cfg.B P) (o : RecOpt)
+    (docs tfs : List Nat) (hv : ValidList docs tfs) :
+    decodeTerm (cfgWith P) o docs.length (encodeTerm (cfgWith P) o docs tfs) =
+      some (chunkBlocks (cfgWith P) o (docs.length / cfg.B) docs tfs) :=
+  decodeTerm_encodeTerm (cfgWith P) o (show 0 < cfg.B by decide) (show 2 ≤ cfg.S by decide) hP docs tfs hv
 
 /-- **Positions addressing.** The position deltas of the `i`-th document of a term are the slice
 of the term's position stream (the concatenation of all documents' deltas) that starts at
@@ -180,10 +188,20 @@ theorem C07_invert_spec_sorted (c : Corpus) :
 example : (2 : Nat) ≤ VInt.STOP ∧ Gen.Postings.VINT_RADIX = Gen.Postings.VINT_STOP_BIT ∧
     Gen.Postings.PVINT_RADIX = Gen.Postings.PVINT_STOP_BIT ∧
     Gen.Postings.PVINT_STOP_BIT = Gen.Postings.VINT_STOP_BIT := by decide
-example : VInt.enc VInt.STOP 300 = [44, 130] ∧ VInt.dec VInt.STOP [44, 130, 7] = some (300, [7]) := by decide
+example : VInt.enc VInt.STOP 300 = [44, 130] ∧ VInt.dec VInt.STOP [44, 130, 7] = some (300, [7]) := by
+  decide +kernel
 example : ValidList [0, 3, 4, 1000, 2147483646] [1, 2, 1, 300, 7] :=
   ⟨by decide, by decide, by decide, by decide⟩
 example : 0 < cfg.B ∧ 2 ≤ cfg.S ∧ cfg.B = 8 ^ 2 * 2 ∧ cfg.T = 2 ^ 31 - 1 := by decide
+example : BlockSumsFit cfg [1, 2, 1, 300, 7] := by
+  intro m
+  have : ∀ m, m < 6 → ((([1, 2, 1, 300, 7] : List Nat).drop m).take cfg.B).sum < 2 ^ 32 := by decide
+  rcases Nat.lt_or_ge m 6 with h | h
+  · exact this m h
+  · rw [List.drop_eq_nil_of_le (by simpa using Nat.le_of_lt_succ (Nat.lt_succ_of_lt h))]; decide
+example : run cfg .positions (Cursor.init (chunkBlocks cfg .positions 0 [0, 3, 4, 1000] [1, 2, 1, 300]))
+    [.advance, .seek 5, .seek 2147483647] = [(3, 2, 1), (1000, 300, 4), (2147483647, 0, 0)] := by
+  decide +kernel
 example : (5 : Nat) < Gen.Postings.BITWIDTH_LIMIT ∧ encodeBitwidth 5 true = 69 := by decide
 example : (invert [[[⟨[97], 0, 1⟩, ⟨[98], 1, 1⟩], [⟨[97], 0, 1⟩]], [], [[⟨[98], 0, 1⟩]]]).terms =
     [([97], [⟨0, 2, [0, 3]⟩]), ([98], [⟨0, 1, [1]⟩, ⟨2, 1, [0]⟩])] := by decide
